@@ -7,12 +7,12 @@ package dht
 // peers, inside a synctest bubble.
 
 import (
-	"encoding/base64"
-	ci "github.com/libp2p/go-libp2p/core/crypto"
-	"github.com/libp2p/go-libp2p/core/routing"
 	"context"
 	"crypto/sha256"
+	"encoding/base64"
 	"fmt"
+	ci "github.com/libp2p/go-libp2p/core/crypto"
+	"github.com/libp2p/go-libp2p/core/routing"
 	"sort"
 	"sync"
 	"time"
